@@ -47,15 +47,14 @@ theorem peaksIn_of_empty_range (id : Ident) (size : Nat) (h : id.positions size 
 /-- all four calls on a segment without leaves, no bitmap, range starting with a leaf position -/
 theorem leafless_no_bitmap (hf : HashFn α H) [DecidableEq H] (s : Segment α H) (size : Nat)
     (mmrRoot : H) (hlp : Nat) (other : H) (left : Bool) (p : Nat) (ps : List Nat)
-    (hno : s.leafPos = [] ∨ s.leafData = []) (hpos : s.id.positions size = p :: ps)
-    (hp : height p = 0) :
+    (hno : s.leafPos = [] ∨ s.leafData = []) (hex : s.id.unprunedSize size ≠ 0)
+    (hpos : s.id.positions size = p :: ps) (hp : height p = 0) :
     s.root hf size none = .err (.missingLeaf p) ∧
     s.firstUnprunedParent hf size none = .err (.missingLeaf p) ∧
     s.validate hf size none mmrRoot = .err (.missingLeaf p) ∧
     s.validateWith hf size none mmrRoot hlp other left = .err (.missingLeaf p) := by
   have hr : s.root hf size none = .err (.missingLeaf p) := by
-    unfold Segment.root
-    rw [hpos]
+    rw [root_of_nonempty hf s size none hex, hpos]
     exact rootWith_leafless hf s size p ps _ _ hno hp
   have hf' : s.firstUnprunedParent hf size none = .err (.missingLeaf p) := by
     unfold Segment.firstUnprunedParent
